@@ -535,7 +535,19 @@ def specialise(expr, env):
             return call_name(e) in _NONNULL_CALLS
         return False
 
+    exprkeys = {k: v for k, v in env.items() if not k.isidentifier()}
+
     class T(ast.NodeTransformer):
+        def generic_visit(self, n):
+            if exprkeys and isinstance(n, ast.expr):
+                try:
+                    k = " ".join(ast.unparse(n).split())
+                except Exception:
+                    k = None
+                if k in exprkeys:
+                    return ast.Constant(value=exprkeys[k])
+            return super().generic_visit(n)
+
         def visit_Name(self, n):
             if isinstance(n.ctx, ast.Load) and n.id in env:
                 return ast.Constant(value=env[n.id])
